@@ -154,6 +154,17 @@ impl IndexRange {
         }
     }
 
+    // Bounds checked version of mask for the checked getters: an index so large that adding
+    // the length of the mask overflows can't be a valid index into any dimension.
+    #[inline]
+    pub(crate) fn try_mask(&self, index: usize) -> Option<usize> {
+        if index < self.start {
+            Some(index)
+        } else {
+            index.checked_add(self.length)
+        }
+    }
+
     // Clips the range or mask to not exceed an index. Note, this may yield 0 length ranges
     // that have non zero starting positions, however map and mask will still calculate correctly.
     pub(crate) fn clip(&mut self, max_index: usize) {
